@@ -75,8 +75,8 @@ Proof. vm_compute. reflexivity. Qed.
 
    Fragment (model/ScalarFrag.v, model/VarProg.v): programs over top-level variables - any number of declarations
    `x := e`, assignments `x = e`, expression statements, conditionals `if c { ... } else { ... }` / `if c { ... }` and condition loops
-   `for c { ... }` whose blocks are again lists of assignments, expression statements, conditionals and loops, nested
-   to any depth -, whose expressions are built from integer / boolean / nil / string literals, variables declared
+   `for c { ... }` (with `break` and `continue`) whose blocks are again lists of assignments, expression statements,
+   conditionals and loops, nested to any depth -, whose expressions are built from integer / boolean / nil / string literals, variables declared
    earlier, prefix - and !, the arithmetic and comparison operators (on integers and strings), short-circuit && and
    ||, and the conditional, at any nesting.  For the fragment, the emitted code ([cexp], [pcode]) and the source-level
    result ([sev], [run_stmts]) are pure functions; loops make the latter a fuelled function (None = not enough fuel;
@@ -108,7 +108,7 @@ Proof. vm_compute. reflexivity. Qed.
    branch, loop and loop body) are characterised by an invariant in proofs/VarCompileProofs.v and play no role at run time *)
 Require Import RV.proofs.VarCompileProofs.
 Theorem C01_back_compile_program : forall names, NoDup names -> forall l f,
-  l <> nil -> ndecls l <= List.length names -> wf_stmts true 0 l = true -> max_height l <= f ->
+  l <> nil -> ndecls l <= List.length names -> wf_stmts true false 0 l = true -> max_height l <= f ->
   exists tabs, compile_program (S f) nil (embed_stmts names 0 l) =
                inr (Code main_id main_id false 0 (fst (pcode 0 0 l)) (snd (pcode 0 0 l)) nil nil nil, tabs).
 Proof. exact compile_var_program. Qed.
@@ -123,7 +123,7 @@ Proof. exact sem_scalar. Qed.
 (* (2) whole programs: whenever the source-level run ends with fuel n, Sem.run with any larger fuel gives its result *)
 Require Import RV.proofs.VarSemProofs.
 Theorem C01_back_sem_program : forall names, NoDup names -> Forall (fun nm => nm <> nil) names -> forall l n f r,
-  wf_stmts true 0 l = true -> (ndecls l <= List.length names)%nat -> (max_height l <= f)%nat -> (n <= f)%nat ->
+  wf_stmts true false 0 l = true -> (ndecls l <= List.length names)%nat -> (max_height l <= f)%nat -> (n <= f)%nat ->
   run_stmts n nil l ScalarFrag.VNil = Some r ->
   fst (Sem.run (S f) (embed_stmts names 0 l)) = lift_top r.
 Proof. exact sem_var_program. Qed.
@@ -151,7 +151,7 @@ Proof. exact vm_scalar. Qed.
    symbol tables, returns the value / stops with the error class of the source-level run; k + 1 = instructions executed *)
 Require Import RV.proofs.EndToEndVars.
 Theorem C01_back_vm_program : forall l tabs ng n r,
-  l <> nil -> wf_stmts true 0 l = true -> (ndecls l <= ng)%nat -> (max_need l <= MAXSTACK)%nat ->
+  l <> nil -> wf_stmts true false 0 l = true -> (ndecls l <= ng)%nat -> (max_need l <= MAXSTACK)%nat ->
   run_stmts n nil l ScalarFrag.VNil = Some r ->
   exists k s', forall f,
     VM.run (k + S f) (Code main_id main_id false 0 (fst (pcode 0 0 l)) (snd (pcode 0 0 l)) nil nil nil) tabs ng nil =
@@ -170,7 +170,7 @@ Proof. exact run_var_program. Qed.
    compile_program, VM.run and Sem.run are the very functions that are extracted and compared with the real compiler
    and VM on every run. *)
 Theorem C01_var_programs : forall names, NoDup names -> Forall (fun nm => nm <> nil) names -> forall l n r,
-  l <> nil -> wf_stmts true 0 l = true -> (ndecls l <= List.length names)%nat -> (max_need l <= MAXSTACK)%nat ->
+  l <> nil -> wf_stmts true false 0 l = true -> (ndecls l <= List.length names)%nat -> (max_need l <= MAXSTACK)%nat ->
   run_stmts n nil l ScalarFrag.VNil = Some r ->
   exists c tabs, compile_program (S (max_height l)) nil (embed_stmts names 0 l) = inr (c, tabs) /\
   forall ng, (ndecls l <= ng)%nat -> exists k, forall f fs, (max_height l < fs)%nat -> (n < fs)%nat ->
@@ -184,7 +184,7 @@ Definition ex_prog : list stmt :=
    SIf (SBin CGt (SVar 1) (SInt 10)) (SSet 0 (SBin BSub (SVar 1) (SInt 15)) :: SExpr (SVar 0) :: nil) (SSet 1 (SInt 0) :: nil) ::
    SExpr (STern (SBin CLt (SVar 0) (SInt 0)) (SBin BDiv (SInt 1) (SVar 0)) (SVar 1)) :: nil)%list.
 Example C01_var_program_example :
-  wf_stmts true 0 ex_prog = true /\ ndecls ex_prog = 2%nat /\
+  wf_stmts true false 0 ex_prog = true /\ ndecls ex_prog = 2%nat /\
   option_map top_result (run_stmts 3 nil ex_prog ScalarFrag.VNil) = Some (inl (ScalarFrag.VInt (-1))) /\
   match compile_program 10 nil (embed_stmts ex_names 0 ex_prog) with
   | inr (c, tabs) => match VM.run 200 c tabs 2 nil with RVal (VM.VInt z) _ => z = (-1)%Z | _ => False end
@@ -201,7 +201,7 @@ Definition ex_sprog : list stmt :=
    SIf (SBin CGt (SVar 1) (SVar 0)) (SSet 0 (SBin BAdd (SVar 1) (SVar 1)) :: nil) (SSet 0 (SStr nil) :: nil) ::
    SExpr (STern (SBin CEq (SVar 0) (SStr (97 :: 98 :: 99 :: 97 :: 98 :: 99 :: nil)%N)) (SVar 1) (SInt 0)) :: nil)%list.
 Example C01_var_program_string_example :
-  wf_stmts true 0 ex_sprog = true /\
+  wf_stmts true false 0 ex_sprog = true /\
   option_map top_result (run_stmts 3 nil ex_sprog ScalarFrag.VNil) = Some (inl (ScalarFrag.VStr (97 :: 98 :: 99 :: nil)%N)) /\
   match compile_program 10 nil (embed_stmts ex_names 0 ex_sprog) with
   | inr (c, tabs) => match VM.run 200 c tabs 2 nil with RVal (VM.VStr z) _ => z = (97 :: 98 :: 99 :: nil)%N | _ => False end
@@ -214,20 +214,21 @@ Qed.
 
 (* ... and with loops and nesting:
      a := 0; b := 0
-     for a < 3 { a = a + 1; if a == 2 { b = b + 10; for false { } } else { b = b + 1; b }; if a > 2 { b = b + 100 }; a }
+     for a < 9 { a = a + 1; if a == 2 { b = b + 10; for false { } } else { b = b + 1; b }; if a > 2 { b = b + 100; break }; if a == 1 { continue }; a }
      b                                                                                         (= 112)
    ends with fuel 6 but not with fuel 4 *)
 Definition ex_lprog : list stmt :=
   (SDecl (SInt 0) :: SDecl (SInt 0) ::
-   SWhile (SBin CLt (SVar 0) (SInt 3))
+   SWhile (SBin CLt (SVar 0) (SInt 9))
      (SSet 0 (SBin BAdd (SVar 0) (SInt 1)) ::
       SIf (SBin CEq (SVar 0) (SInt 2)) (SSet 1 (SBin BAdd (SVar 1) (SInt 10)) :: SWhile (SBool false) nil :: nil)
                                        (SSet 1 (SBin BAdd (SVar 1) (SInt 1)) :: SExpr (SVar 1) :: nil) ::
-      SIf1 (SBin CGt (SVar 0) (SInt 2)) (SSet 1 (SBin BAdd (SVar 1) (SInt 100)) :: nil) ::
+      SIf1 (SBin CGt (SVar 0) (SInt 2)) (SSet 1 (SBin BAdd (SVar 1) (SInt 100)) :: SBreak :: nil) ::
+      SIf1 (SBin CEq (SVar 0) (SInt 1)) (SContinue :: nil) ::
       SExpr (SVar 0) :: nil) ::
    SExpr (SVar 1) :: nil)%list.
 Example C01_var_program_loop_example :
-  wf_stmts true 0 ex_lprog = true /\
+  wf_stmts true false 0 ex_lprog = true /\
   option_map top_result (run_stmts 6 nil ex_lprog ScalarFrag.VNil) = Some (inl (ScalarFrag.VInt 112)) /\
   run_stmts 4 nil ex_lprog ScalarFrag.VNil = None /\
   match compile_program 10 nil (embed_stmts ex_names 0 ex_lprog) with
